@@ -27,7 +27,7 @@ BOUND = {"quick": "2 bases x {equilibrium, 3 amplitudes x 4 patterns, 2 scales} 
 ASSUMPTIONS = ["KKT tolerance 1e-9 x scale (default path); iterative back-ends: feasible and cost within (1+1e-4) ('lsq') / (1+1e-6) ('lsq_linear') of the certified optimum; scale = max(1,|A|max) x max(1,|b|max)",
                "'lsq_linear' is judged on consistent systems only (as the statement says)",
                "with allow_negatives=True a solution with negative tensions is only required to solve the square system exactly"]
-REQUIRED_TAGS = {"all": ["rawinv_only_last_negative", "rawinv_only_first_negative", "rawinv_only_multiplier_negative", "path:inv", "path:nnls-fallback", "path:lsq", "path:lsq_linear", "rhs:velocity", "unique", "square", "wide", "active_bound", "noisy", "fixture", "angle_limited", "defaults_spelled_out", "initial_condition:zero_at", "initial_condition:previous_with_exact_zero"]}
+REQUIRED_TAGS = {"all": ["rawinv_only_last_negative", "rawinv_only_first_negative", "rawinv_only_multiplier_negative", "path:inv", "path:nnls-fallback", "path:lsq", "path:lsq_linear", "rhs:velocity", "unique", "square", "wide", "active_bound", "noisy", "fixture", "angle_limited", "defaults_spelled_out", "initial_condition:zero_at", "initial_condition:previous_with_exact_zero", "use_std"]}
 
 
 KW_MORE = [{"initial_condition": ["zero_at", 3]}, {"initial_condition": ["ramp"]}, {"initial_condition": ["previous", 0.3, 1]}, {"initial_condition": ["zero_every", 3, 0]}]
@@ -198,7 +198,7 @@ class Solver(ProductSystem):
                 "map": [["m", 0.05, 0.02], ["id"]],
                 "order": self._orders(base),
                 "limit": ["inf", "excluding"],
-                "kw": [None, {"use_std": False}, {"verbose": False, "use_std": False}, {"initial_condition": ["ones"]}, {"initial_condition": ["zero_at", 0]},
+                "kw": [None, {"use_std": False}, {"verbose": False, "use_std": False}, {"use_std": True}, {"initial_condition": ["ones"]}, {"initial_condition": ["zero_at", 0]},
                        {"initial_condition": ["previous", 0.2, 1]}, {"initial_condition": ["previous", 0.1, 0]}] + (KW_MORE if self.bound > 3 else [])}      # options spelled out with their default values
 
     def _orders(self, base):
@@ -264,6 +264,12 @@ class Solver(ProductSystem):
             tags.append("initial_condition:" + cfg["kw"]["initial_condition"][0])
         if cfg["method"] == "lsq_linear" and not consistent:
             return {"viol": [], "tags": tags + ["lsq_linear_inconsistent_no_verdict"], "cls": "lsq_linear-inconsistent", "outdom": True}
+        if cfg["kw"] and cfg["kw"].get("use_std"):
+            # 'use_std' makes the Levenberg-Marquardt back-end minimise residual x (1 + std(x) / 2): another objective, with the same
+            # minimisers only where the equations can be met exactly; every other back-end ignores the option
+            if cfg["method"] == "lsq" and not consistent:
+                return {"viol": [], "tags": tags + ["use_std_inconsistent_no_verdict"], "cls": "use_std-inconsistent", "outdom": True}
+            tags.append("use_std" if cfg["method"] == "lsq" else "use_std_ignored_by_backend")
         if r.exc is not None:
             if cfg["method"] == "fix_stress":
                 known.append({"id": "F9", "exc": fsutil.exc_str(r.exc)})
